@@ -40,13 +40,21 @@ let op_gen t =
   let btok = t.(nt - 1) in
   let extras = List.filter_map (fun i -> if t.(i).[0] = 'A' then Some (parse_extra t.(i)) else None)
       (List.init (max 0 (nt - 13)) (fun i -> 12 + i)) in
+  (* X = every element removed; the extras after the last X are what the object ends up with besides nothing else *)
+  let all_ex = List.filter_map (fun i -> if t.(i).[0] = 'A' then Some (Some (parse_extra t.(i))) else if t.(i) = "X" then Some None else None)
+      (List.init (max 0 (nt - 13)) (fun i -> 12 + i)) in
+  let stripped = List.exists (fun e -> e = None) all_ex in
   let u8 v = M.Z.modulo v (z_of_int 256) and u16 v = M.Z.modulo v (z_of_int 65536) in
   let zi i = z_of_string t.(i) in
   let wf_extras = List.map (fun (n, b) -> (u8 n, b)) extras in
   let tagged (g : M.gobj) (spec : z list) =
-    let g' = List.fold_left (fun g (n, b) -> M.g_add g n b) g extras in
+    let g' = List.fold_left (fun g e -> match e with Some (n, b) -> M.g_add g n b | None -> M.mk g.M.g_hdr g.M.g_fixed M.tags_empty) g all_ex in
     let len = int_of_z (M.g_length g') in
     let model = "gen 0" ^ dump_str len (M.g_dump g') btok in
+    (* the reference encoding of a stripped object: header and fixed parameters of the model object, then the elements added after the strip *)
+    let spec = if not stripped then spec else
+      let rec after l acc = match l with [] -> List.rev acc | None :: r -> after r [] | Some e :: r -> after r (e :: acc) in
+      g.M.g_hdr @ g.M.g_fixed @ List.concat (List.map (fun (n, b) -> [u8 n; z_of_int (List.length b)] @ b) (after all_ex [])) in
     let slen = List.length spec in
     let specl = "gen 0" ^ dump_str slen (fun bl -> if int_of_z bl < slen then M.Err M.Z0 else M.Ok spec) btok in
     model ^ " ## " ^ specl in
